@@ -365,6 +365,11 @@ func c17Run(in *c17In) (*compiled, c17Out) {
 		out.Note = "BuildKey: " + note
 		return cp, out
 	}
+	if len(s) > 4<<20 {
+		// no generated case has a value this long in the model; a case file must stay loadable
+		out.Note = fmt.Sprintf("BuildKey returned %d bytes (more than 4 MiB)", len(s))
+		return cp, out
+	}
 	out.Completed, out.Out = true, hex.EncodeToString([]byte(s))
 	return cp, out
 }
@@ -1039,6 +1044,20 @@ func c17Fixed(tier string) (ins []*c17In, heavy []bool) {
 		add(mk(fn("@filter", arg(0), arg(0)), strings.Join(spaces[i:j], "\x00")))
 		add(mk(fn("@map", arg(0), fn("not", arg(0))), strings.Join(spaces[i:j], "\x00")))
 	}
+	// @range near the int64 limits with few elements (no overflow possible / overflow possible but not reached)
+	rg := func(a, b, c string) *c17In { return mk(fn("@range", arg(0), arg(1), arg(2)), a, b, c) }
+	add(rg("9223372036854775000", "9223372036854775500", "300"))
+	add(rg("9223372036854775804", "9223372036854775807", "1"))
+	add(rg("9223372036854775807", "9223372036854775807", "1"))
+	add(rg("-9223372036854775808", "-9223372036854775788", "6"))
+	add(rg("-9223372036854775788", "-9223372036854775808", "-7"))
+	add(rg("-9000000000000000000", "9000000000000000000", "6000000000000000000"))
+	add(rg("9000000000000000000", "-9000000000000000000", "-9000000000000000000"))
+	add(rg("0", "9223372036854775807", "9223372036854775807"))
+	add(mk(fn("@len", fn("@range", arg(0), arg(1), arg(2))), "-3", "9223372036854775800", "3074457345618258603"))
+	// a fast-growing @for value well inside MAX_OUTPUT_BYTES
+	add(mk(fn("@len", fn("@for", lit("ab"), fn("not", fn("eq", arg(1), lit("12"))), cat(arg(0), arg(0))))))
+	add(mk(&Expr{Op: "@select", I: -1, Args: []*Expr{fn("@map", fn("@for", lit("ab"), fn("not", fn("eq", arg(1), lit("9"))), cat(arg(0), arg(0))), fn("len", arg(0)))}}))
 	// the iteration cap of @for (MAX_ITERATIONS, regenerated by the translator): a loop that never ends
 	in := mk(fn("@for", lit("x"), lit("1"), arg(0)))
 	in.W = 1
@@ -1050,6 +1069,18 @@ func c17Fixed(tier string) (ins []*c17In, heavy []bool) {
 	in.W = 1
 	ins = append(ins, in)
 	heavy = append(heavy, true)
+	// @range one element over maxRangeElements (the cap fires in round cap + 1), and an increment that
+	// overflows int64 after the only element: the wrapped counter stays below stop until the cap fires
+	for _, h := range []*c17In{
+		mk(fn("@range", lit("0"), lit("1000001"), lit("1"))),
+		rg("9223372036854775806", "9223372036854775807", "5"),
+		// @for: 990000 rounds (fewer than MAX_ITERATIONS) of a 70-byte value exceed MAX_OUTPUT_BYTES
+		mk(fn("@for", lit("0123456789012345678901234567890123456789012345678901234567890123456789"), fn("not", fn("eq", arg(1), lit("990000"))), arg(0))),
+	} {
+		h.W = 1
+		ins = append(ins, h)
+		heavy = append(heavy, true)
+	}
 	return
 }
 
